@@ -4,14 +4,18 @@ from . import structural
 from .c01 import shape_of
 
 
-def run_scheme_corpus(chk, pid, tags, backend="numpy", fams=None):
-    fams = fams or ([1, 3, 4] if chk.tier == "quick" else [1, 2, 3, 4])
+def gen_class(text):
+    return "floor-or-Mod-of-own-state" if ("floor" in text or "Mod" in text) else None
+
+
+def run_scheme_corpus(chk, pid, tags, backend="numpy", fams=None, schemes=None):
+    fams = fams or ([1, 3, 4, 5] if chk.tier == "quick" else [1, 2, 3, 4, 5])
     results, header, recs = schemecorpus.generate(fams, chk.nproc)
     for r in results:
         chk.add_tlc(r)
     if header is None or not recs:
         raise core.MachineryFailure("MC_Scheme emitted nothing")
-    stats, bad = schemecorpus.replay(recs, header, backend, chk.nproc, seed=chk.seed)
+    stats, bad = schemecorpus.replay(recs, header, backend, chk.nproc, seed=chk.seed, schemes=schemes)
     chk.replayed += stats["templates"]
     chk.extra.setdefault("scheme_corpus", []).append({"backend": backend, "families": fams, **stats})
     if stats["compared"] == 0:
@@ -22,6 +26,8 @@ def run_scheme_corpus(chk, pid, tags, backend="numpy", fams=None):
         if b["tag"] not in tags:
             continue
         sig = f"{pid}:{backend}:{b['tag']}:{shape_of(b['text'])}:delta={b['delta']}"
+        if b["kind"] == "error" and gen_class(b["text"]):
+            sig = f"{pid}:{backend}:generate:{gen_class(b['text'])}"
         if b["kind"] == "error":
             what = f"{backend}: generating schemes for rate `{b['text']}` raised {b['exception']}: {b['message'][:140]}"
         else:
